@@ -403,6 +403,53 @@ impl<'tcx> Cx<'tcx> {
                         ("enum", s(tystr(ty))),
                         ("variant", s(adt.variant(*index).name.to_string())),
                     ])),
+                    Variants::Multiple { tag, tag_encoding, tag_field, .. } => {
+                        // Option<T>-like: one dataful variant with a single field, the other(s) payload-free
+                        let tsz = tag.size(&tcx);
+                        let toff = layout.fields.offset(tag_field.as_usize());
+                        let v = read_uint(off + toff, tsz)?;
+                        let vidx = match tag_encoding {
+                            rustc_abi::TagEncoding::Direct => {
+                                let mut found = None;
+                                for (vi, d) in adt.discriminants(tcx) {
+                                    if d.val == v {
+                                        found = Some(vi);
+                                    }
+                                }
+                                found?
+                            }
+                            rustc_abi::TagEncoding::Niche { untagged_variant, niche_variants, niche_start } => {
+                                let mask = if tsz.bits() >= 128 { u128::MAX } else { (1u128 << tsz.bits()) - 1 };
+                                let rel = v.wrapping_sub(*niche_start) & mask;
+                                let lo = niche_variants.start().as_u32() as u128;
+                                let hi = niche_variants.end().as_u32() as u128;
+                                if rel <= hi - lo {
+                                    rustc_abi::VariantIdx::from_u32((lo + rel) as u32)
+                                } else {
+                                    *untagged_variant
+                                }
+                            }
+                        };
+                        let var = adt.variant(vidx);
+                        let mut fields: Vec<J> = Vec::new();
+                        if var.fields.len() == 1 {
+                            if let ty::Adt(_, args) = ty.kind() {
+                                let fty = var.fields.iter().next().unwrap().ty(tcx, args);
+                                // single-field dataful variant of an Option-like enum sits at offset 0
+                                if let Some(fv) = self.decode(fty, alloc, off, depth) {
+                                    fields.push(fv);
+                                }
+                            }
+                        } else if !var.fields.is_empty() {
+                            return Some(J::Obj(vec![("opaque", s(tystr(ty)))]));
+                        }
+                        Some(J::Obj(vec![
+                            ("enum", s(tystr(ty))),
+                            ("variant", s(var.name.to_string())),
+                            ("vi", n(vidx.as_u32())),
+                            ("payload", J::Arr(fields)),
+                        ]))
+                    }
                     _ => Some(J::Obj(vec![("opaque", s(tystr(ty)))])),
                 }
             }
